@@ -97,27 +97,29 @@ Theorem C02_hist_ok : forall eps aeps q cells ops, 0 <= aeps -> accepted aeps ce
 Proof. exact hist_ok. Qed.
 Print Assumptions C02_hist_ok.
 
-(* A[k].allocations[i].rect.fixed = b sets the flag of every cell sharing that Rectangle object, in every
-   allocation of the history, and changes nothing else *)
-Theorem C02_hset_fixed_spec : forall eps aeps q s k i b, hvalid aeps s ->
-  let l := hget s k in
-  let j := (i mod List.length l)%nat in
-  exists hc, nth_error l j = Some hc /\
-    fst (hstep eps aeps q (HSetFixed k i b) s) = hset_fixed (fst hc) b s /\
-    nth_error (hvals (hget (hset_fixed (fst hc) b s) k)) j = Some (cset_fixed b (snd hc)) /\
-    Forall2 (Forall2 (fun x x' : hcell => fst x' = fst x /\
-                        (if Nat.eqb (fst x) (fst hc) then snd x' = cset_fixed b (snd x) else snd x' = snd x)))
-            (hallocs s) (hallocs (hset_fixed (fst hc) b s)).
+(* c.rect.fixed = b, c the cell of A[k] with centre (x, y) (the position of a cell in the list is no part of the
+   property; cells of an accepted allocation do not overlap, so the centre identifies the cell): the flag of every
+   cell sharing that Rectangle object is set, in every allocation of the history, and nothing else changes *)
+Theorem C02_hset_fixed_spec : forall eps aeps q s k x y b hc, find (at_centre x y) (hget s k) = Some hc ->
+  fst (hstep eps aeps q (HSetFixed k x y b) s) = hset_fixed (fst hc) b s /\
+  In hc (hget s k) /\ centre_of (snd hc) = (x, y) /\
+  In (fst hc, cset_fixed b (snd hc)) (hget (hset_fixed (fst hc) b s) k) /\
+  Forall2 (Forall2 (fun c c' : hcell => fst c' = fst c /\
+                      (if Nat.eqb (fst c) (fst hc) then snd c' = cset_fixed b (snd c) else snd c' = snd c)))
+          (hallocs s) (hallocs (hset_fixed (fst hc) b s)).
 Proof. exact hset_fixed_spec. Qed.
 Print Assumptions C02_hset_fixed_spec.
 
 (* ... and the next refinement call on that allocation, whatever it is and whatever was asked of the
    allocation before, hands that cell over whole *)
-Theorem C02_set_fixed_true_not_cut : forall eps aeps q s k i o', 0 <= aeps -> hvalid aeps s -> op_admissible o' ->
-  let s1 := fst (hstep eps aeps q (HSetFixed k i true) s) in
+Theorem C02_set_fixed_true_not_cut : forall eps aeps q s k x y o' hc,
+  0 <= aeps -> hvalid aeps s -> op_admissible o' ->
+  find (at_centre x y) (hget s k) = Some hc ->
+  let s1 := fst (hstep eps aeps q (HSetFixed k x y true) s) in
   let src := hvals (hget s1 k) in
-  let j := (i mod List.length src)%nat in
-  exists c new parts, nth_error src j = Some c /\ fixed (crect c) = true /\
+  let c := cset_fixed true (snd hc) in
+  fixed (crect c) = true /\
+  exists j new parts, nth_error src j = Some c /\
     snd (hstep eps aeps q (HApply k o') s1) = ONew (Some new) /\
     new = List.concat parts /\ Forall2 cell_refines src parts /\ nth_error parts j = Some [c].
 Proof. exact set_fixed_true_not_cut. Qed.
